@@ -921,6 +921,7 @@ enum cc_stat cc_array_sized_iter_remove(CC_ArraySizedIter *iter, uint8_t *out)
         status = cc_array_sized_remove_at(iter->ar, iter->index - 1, out);
         if (status == CC_OK) {
             iter->last_removed = true;
+            iter->index--;
         }
     }
     return status;
@@ -1044,6 +1045,7 @@ enum cc_stat cc_array_sized_zip_iter_remove(CC_ArraySizedZipIter *iter, uint8_t 
         cc_array_sized_remove_at(iter->ar1, iter->index - 1, out1);
         cc_array_sized_remove_at(iter->ar2, iter->index - 1, out2);
         iter->last_removed = true;
+        iter->index--;
         return CC_OK;
     }
     return CC_ERR_VALUE_NOT_FOUND;
